@@ -30,6 +30,9 @@ CLAIMED = {
     "C13": ("proof", "contract-based deductive verification (pyvc VCs from the real AST, z3/cvc5) of the searchers' pending/failed bookkeeping with quantified frame clauses; bounded symbolic execution with abstract collaborators and ghost protocol state for the tuner and scheduler layers",
             "Unbounded: GPMultiFidelitySearcher.cleanup_pending / evaluation_failed and TuningJobState.append_pending for pending lists of any length (the failed trial's entries disappear, every other trial's stay, the trial is marked failed). Bounded: one scheduler notification per failure and the failure limit in Tuner (C01/C12 contracts), rung / bracket bookkeeping of other trials (C04/C05 contracts), _handle_failure names a failed trial, a failed synchronous job is reported to its bracket as NaN.",
             "A-REAL; interface contracts assumed for abstract collaborators; comprehension (filter) summary with its lemmas trusted; remove_pending's frame clause only bounded; DEHB and model-free searchers' exclusion lists are covered by C06 where built.", "5/C13"),
+    "C20": ("exploration", "contracts and harnesses on the real classes decided by bounded symbolic execution (pyvc) and z3, ghost checkpoint state in the interface contracts",
+            "Bounded stand-in: the generic TrialBackend deletes a checkpoint only in stop_trial (after the trial was stopped) and stop_all, and only with delete_checkpoints; pausing and resuming never delete; a warm start copies before it schedules; the tuner reaches deletion only via STOP decisions and every resume / clone call site requires an existing checkpoint (ghost G.ckpt); PBT marks every trial it stops and only clones from live trials (population <= 3). F8 is recorded as a known finding.",
+            "Interface contracts assumed; synchronous Hyperband's removable list relies on C05's get_top_list partition clause; LocalBackend file operations and the speculative Hyperband callback are out of scope.", "5/C20"),
     "C04": ("proof", "contract-based deductive verification: VCs generated from the real AST (pyvc) with loop invariants and modular callee contracts, discharged by z3/cvc5; bounded-shape stand-in for the cost-aware variant and for witnesses",
             "Unbounded verification conditions (rung contents of any length, 0..3 rungs) for PromotionRungSystem (find/mark/schedule/add/report/remove) and PASHA's resource cap in on_task_schedule, from /repo's source on every run; cost-aware eligibility bounded (<=4 entries).",
             "A-REAL; SortedList contract trusted; number of rungs concrete in proof units; cost values non-negative; PASHA ranking/epsilon logic and DyHPO not covered; pyvc encoding and SMT solvers trusted.", "5/C04"),
